@@ -12,10 +12,18 @@ def run(tier, seed):
                    "(Engine/Elide.v) — the last two compared with the real functions on every run through overlay wrappers (harness/c02/x_*_export.go)",
                    "the x86 meaning of an addressing mode (base + index*2^shift + sign-extended disp32) and of the three instructions lowerToAddressMode inserts (mov imm, xor-zero, shl imm)",
                    "the overlay's copy of LowerToSSA/lowerBody that steps the real frontend (its SSA output is compared with LowerToSSA's on every function)",
-                   "coq/Wasm/Sem.v as the oracle of every access of the end-to-end run; harness/c02, checks/c02*.py"]
+                   "coq/Wasm/Sem.v as the oracle of every access of the end-to-end run; harness/c02, checks/c02*.py",
+                   "guard stream: Engine/Access.v (byte-level model of plain/SIMD/atomic/bulk accesses, written from the specification) and its restatement in Python (checks/c02_guard.py) as "
+                   "reference; the kernel's page protection (mmap PROT_NONE / mprotect) as the detector of host accesses outside [0,size); the harness's twin construction "
+                   "(the consumer of a loaded value, called with the reference value of the addressed bytes on the same engine) instead of a semantics of the consumers; "
+                   "wazero's api.Memory Read/Write used to fill and to dump the memories"]
     ck.assumptions += ["instruction selection/encoding after address-mode lowering, register allocation and native code are exercised end to end, not modelled",
                        "Engine/Elide.v's execution semantics: the memory never shrinks and moves only at calls and memory.grow; a block's own SSA values change only when the block is entered",
-                       "arm64 is out of scope on this machine; atomics/SIMD/bulk-memory accesses are not generated",
+                       "arm64 is out of scope on this machine",
+                       "guard stream: a wild access is detected when it reaches an inaccessible page: within 64 KiB below the memory, or anywhere from its current size up to the "
+                       "reserved maximum + 64 KiB (fixed allocator) / 64 KiB above it (moving allocator, which also unmaps the old memory on every growth); accesses that land in other "
+                       "mappings of the process are only seen through results, trap class and the complete memory comparison. Memories of 1-4 pages growing up to 8; the alignment "
+                       "check of atomics is compared for page-aligned memory bases only; float SIMD arithmetic on loaded vectors is not generated (NaN payloads)",
                        "final memory contents above the first 64 MiB are observed through the programs' own loads, not dumped"]
     proofs_ok = ck.proofs()
     n, big = (140, 4) if tier == "quick" else (3000, 40)
@@ -69,7 +77,15 @@ def run(tier, seed):
                         "shifts 0..65, single/multi-use) handed to the real lowerToAddressMode; its result is read under 3 register valuations and compared part by part with Amode.v (in Coq) "
                         "and with value+offset (Python). Direct stream B: generated functions (loops, ifs, br/br_if/br_table, calls, memory.grow, few base values) lowered by the real frontend "
                         "stepped opcode by opcode; the real cache at every block boundary/event and every decision of memOpSetup are compared with Elide.v (in Coq, which also evaluates wf_cfg on "
-                        "the real graph) and every access of the emitted SSA is checked by a must-dataflow over the final graph (Python)")
+                        "the real graph) and every access of the emitted SSA is checked by a must-dataflow over the final graph (Python). "
+                        "Guard stream: access programs run in child processes on memories whose first byte after the current size is always inaccessible (mmap allocator, fixed or moving on "
+                        "growth): a systematic sweep (every full-width load i32/i64/f32/f64/v128 x every consumer of its type — ALU/compare/shift/rotate on either side, vector shifts, splat, "
+                        "replace_lane, conversions, float operators, select, if/br_if/br_table, call arguments, global.set — at the last in-bounds and the first out-of-bounds position) and random "
+                        "programs (every load/store width and extension, stores of constants and of loaded values, load-op-store in place, v128 load/store/extending/splat/zero/lane, atomics "
+                        "load/store/rmw/cmpxchg/notify/wait of every width incl. every misalignment class, memory.fill/copy/init incl. overlapping copies and zero lengths; bases from parameters, "
+                        "derived values and constants, static offsets incl. >= 2^31 and effective addresses >= 2^32; an earlier access on the same base value, memory.grow or a growing call "
+                        "in between); every call: interpreter vs compiler (trap class, results, every changed byte, size), both vs the specification (Python) and vs Engine/Access.v (Coq, on "
+                        "a window of the memory); a dead child = wild access, attributed to program + call by markers and confirmed by a single re-run")
     for c in cases:
         why = engines_agree(c)
         if why:
